@@ -14,10 +14,11 @@ PYTHONPATH=$WT timeout 1200 /venv/bin/python SEED/demo.py > $D/demo_without.log 
 git apply $D/patch.diff
 echo "demo with change: exit $W ; without: exit $WO"
 unset TMPDIR
-rsync -a --exclude .git --exclude 'build/cache' --exclude replay /verif/ /tmp/verif_seed/
+SC=${SEED_SCRATCH:-/tmp/verif_seed}     # set SEED_SCRATCH to run several evaluations at once
+rsync -a --exclude .git --exclude 'build/cache' --exclude replay /verif/ $SC/
 RES=""
 for P in "$@"; do
-  OUT=$(VERIF_REPO=$WT timeout 3000 /tmp/verif_seed/check $P quick 2>&1 | grep -E "^VIOLATION|quick:|^  " | head -4)
+  OUT=$(VERIF_REPO=$WT timeout 3000 $SC/check $P quick 2>&1 | grep -E "^VIOLATION|quick:|^  " | head -4)
   echo "--- $P: $OUT"
   RES="$RES\n$P: $OUT"
 done
